@@ -11,42 +11,17 @@ import Driver.OpsBuf
 import Driver.OpsSolver
 import Driver.OpsEquiv
 import Driver.OpsComb
+import Driver.OpsNewton
 open Ibex Ibex.Proto
 
+/-- the handlers, tried in order (each returns `none` for an op it does not know) -/
+def handlers : List (String → List String → List String → Option String) :=
+  [Ibex.Driver.opsItv, Ibex.Driver.opsBox, Ibex.Driver.opsBwd, Ibex.Driver.opsExpr, Ibex.Driver.opsCtc,
+   Ibex.Driver.opsSym, Ibex.Driver.opsCov, Ibex.Driver.opsBuf, Ibex.Driver.opsSolver, Ibex.Driver.opsEquiv,
+   Ibex.Driver.opsComb, Ibex.Driver.opsNewton]
+
 def dispatch (op : String) (ins outs : List String) : String :=
-  match Ibex.Driver.opsItv op ins outs with
-  | some r => r
-  | none =>
-  match Ibex.Driver.opsBox op ins outs with
-  | some r => r
-  | none =>
-  match Ibex.Driver.opsBwd op ins outs with
-  | some r => r
-  | none =>
-  match Ibex.Driver.opsExpr op ins outs with
-  | some r => r
-  | none =>
-  match Ibex.Driver.opsCtc op ins outs with
-  | some r => r
-  | none =>
-  match Ibex.Driver.opsSym op ins outs with
-  | some r => r
-  | none =>
-  match Ibex.Driver.opsCov op ins outs with
-  | some r => r
-  | none =>
-  match Ibex.Driver.opsBuf op ins outs with
-  | some r => r
-  | none =>
-  match Ibex.Driver.opsSolver op ins outs with
-  | some r => r
-  | none =>
-  match Ibex.Driver.opsEquiv op ins outs with
-  | some r => r
-  | none =>
-  match Ibex.Driver.opsComb op ins outs with
-  | some r => r
-  | none => "bad-op"
+  (handlers.findSome? fun h => h op ins outs).getD "bad-op"
 
 def step (line : String) : String :=
   let line := line.trimAscii.toString
